@@ -56,6 +56,10 @@ type ContractDB struct {
 	preds  map[string]*PredDef
 	files  []string
 	axioms []*Clause // definitional axioms of spec functions (listed in evidence)
+	effectFns  map[string]bool // dependency functions with externally visible effects: every call needs a call-site assert
+	effectPkgs map[string]bool // packages all of whose functions are effectful unless listed as observers
+	observers  map[string]bool
+	pureIface  map[string]bool // "pkg.Iface.Method": assumed pure, modelled as an uninterpreted function of receiver and arguments
 	pureFields map[string]bool // "pkg.Struct.field": function-typed field whose values are pure functions
 	typeinv map[string][]*Clause // receiver prefix "(*pkg.T)" -> invariant over `self`, required and ensured by every method
 	specFn map[string]*SpecFn
@@ -74,7 +78,7 @@ type PredDef struct {
 }
 
 func newContractDB() *ContractDB {
-	return &ContractDB{byFunc: map[string]*Contract{}, preds: map[string]*PredDef{}, specFn: map[string]*SpecFn{}, typeinv: map[string][]*Clause{}, pureFields: map[string]bool{}}
+	return &ContractDB{byFunc: map[string]*Contract{}, preds: map[string]*PredDef{}, specFn: map[string]*SpecFn{}, typeinv: map[string][]*Clause{}, pureFields: map[string]bool{}, pureIface: map[string]bool{}, effectFns: map[string]bool{}, effectPkgs: map[string]bool{}, observers: map[string]bool{}}
 }
 
 func splitTags(kw string) (string, []string) {
@@ -176,6 +180,25 @@ func (db *ContractDB) load(path string) error {
 				}
 			}
 			db.specFn[sf.Name] = sf
+		case "effect":
+			for _, n := range strings.Fields(rest) {
+				db.effectFns[n] = true
+			}
+		case "effectpkg":
+			for _, n := range strings.Fields(rest) {
+				db.effectPkgs[n] = true
+			}
+		case "observer":
+			for _, n := range strings.Fields(rest) {
+				db.observers[n] = true
+			}
+		case "iface":
+			// iface pkg.Iface.Method: pure
+			nm, what, _ := strings.Cut(rest, ":")
+			if strings.TrimSpace(what) != "pure" {
+				panic(fmt.Sprintf("%s:%d: iface supports only pure", path, ln))
+			}
+			db.pureIface[strings.TrimSpace(nm)] = true
 		case "fieldfn":
 			// fieldfn pkg.Struct.field: pure
 			nm, what, _ := strings.Cut(rest, ":")
